@@ -36,6 +36,7 @@ META = {
         "pair of alphabet values as the label of two consecutive unrelated sends in one process (values that compare "
         "equal across types - True/1/1.0, False/0/0.0/-0.0 - must not influence each other). states/transitions "
         "= those of (b) plus one state per delivery observed in (a)."
+        " Long-lived kicker: every history up to 4 (thorough 6) calls over {kiq, with_labels(a=1), with_labels(a=2.5), with_labels(a=bytes) (same key, other value and type), with_labels(b), with_task_id, with_broker} on ONE kicker object; each kiq sends what the calls so far add up to."
     ),
     "assumptions": ["ORJSON / MsgPack / CBOR serializers cannot be imported in this image and are not covered"],
     "required_counters": ["label_cases", "deliveries_checked", "kicker_sequences", "requeues", "retries", "send_pairs"],
@@ -361,10 +362,108 @@ def label_cases(tier: str) -> List[Tuple[int, str, str, int]]:
     return out
 
 
+# ------------------------------------------------------------------------------------------ (b')
+P_OPS = ["kiq", "set_a_int", "set_a_float", "set_a_bytes", "set_b", "task_id", "broker"]
+
+
+def run_persistent_kicker(depth: int, acc: Acc, only: Any = None) -> None:
+    """One long-lived kicker object used for a whole history: every sequence up to `depth` over {kiq,
+    with_labels(a=1), with_labels(a=2.5), with_labels(a=b'\xff') (overrides of the same key with another
+    value and type), with_labels(b='x'), with_task_id, with_broker}. Each kiq() must send exactly what the
+    calls made so far on that kicker add up to; the task's declared labels never change."""
+    from taskiq.abc.broker import AsyncBroker
+    from mc.vloop import run_sync
+
+    declared = {"d": "decl", "a": 0}
+    saved_global = dict(AsyncBroker.global_task_registry)
+    try:
+        for n in range(1, depth + 1):
+            for seq in itertools.product(P_OPS, repeat=n):
+                if seq[-1] != "kiq" or (only is not None and list(seq) != only):
+                    continue
+                sent: List[Tuple[str, Any]] = []
+
+                def mk(name: str) -> Any:
+                    class B(AsyncBroker):
+                        async def kick(self, message: Any) -> None:
+                            tm = self.formatter.loads(message.message)
+                            tm.parse_labels()
+                            sent.append((name, tm))
+
+                        async def listen(self):  # pragma: no cover
+                            yield b""
+                    return B()
+
+                main, other = mk("main"), mk("other")
+                counter = itertools.count()
+                main.id_generator = lambda: f"gen-{next(counter)}"
+                other.id_generator = lambda: f"ogen-{next(counter)}"
+
+                async def fn() -> None:
+                    return None
+                fn.__module__ = "mc.props.c09"
+                task = main.register_task(fn, task_name="c09:persistent", **dict(declared))
+                k = task.kicker()
+                want_labels: Dict[str, Any] = dict(declared)
+                want_broker, want_id = "main", None
+                for i, op in enumerate(seq):
+                    if op == "set_a_int":
+                        k = k.with_labels(a=1)
+                        want_labels["a"] = 1
+                    elif op == "set_a_float":
+                        k = k.with_labels(a=2.5)
+                        want_labels["a"] = 2.5
+                    elif op == "set_a_bytes":
+                        k = k.with_labels(a=b"\xff")
+                        want_labels["a"] = b"\xff"
+                    elif op == "set_b":
+                        k = k.with_labels(b="x")
+                        want_labels["b"] = "x"
+                    elif op == "task_id":
+                        k = k.with_task_id(f"custom-{i}")
+                        want_id = f"custom-{i}"
+                    elif op == "broker":
+                        k = k.with_broker(other)
+                        want_broker = "other"
+                    else:
+                        sent.clear()
+                        run_sync(k.kiq())
+                        acc.transitions += 1
+                        acc.count("persistent_kicker_sends")
+                        rp = {"persistent_kicker": list(seq)}
+                        name, tm = sent[0] if sent else ("<none>", None)
+                        hist = list(seq[: i + 1])
+                        if tm is None or name != want_broker:
+                            acc.violation("send-went-to-wrong-broker", f"long-lived kicker, history {hist}: message went to {name}, expected {want_broker}", rp)
+                            break
+                        if tm.labels != want_labels or any(type(tm.labels[x]) is not type(want_labels[x]) for x in want_labels):
+                            acc.violation(
+                                "kicker-labels-stale",
+                                f"long-lived kicker, history {hist}: message carried labels {tm.labels}, the calls so far add up to {want_labels}",
+                                rp,
+                            )
+                            break
+                        if want_id is not None and tm.task_id != want_id:
+                            acc.violation("task-id-carried-over", f"long-lived kicker, history {hist}: task_id {tm.task_id}, expected {want_id}", rp)
+                            break
+                        if want_id is None and not tm.task_id.startswith("gen-" if want_broker == "main" else "ogen-"):
+                            acc.violation("task-id-carried-over", f"long-lived kicker, history {hist}: task_id {tm.task_id}", rp)
+                            break
+                        if task.labels != declared:
+                            acc.violation("declared-labels-changed", f"long-lived kicker, history {hist}: task.labels = {task.labels}, declared {declared}", rp)
+                            break
+                acc.paths += 1
+                acc.count("kicker_sequences")
+                acc.outcome(("persistent", seq[-3:]))
+    finally:
+        AsyncBroker.global_task_registry.clear()
+        AsyncBroker.global_task_registry.update(saved_global)
+
+
 def shards(tier: str, seed: int) -> List[Any]:
     n = len(label_cases(tier))
     out: List[Any] = [("labels", tier, i, min(i + 1500, n)) for i in range(0, n, 1500)]
-    out += [("kicker", tier, False), ("kicker", tier, True), ("pairs", tier, 0)]
+    out += [("kicker", tier, False), ("kicker", tier, True), ("pairs", tier, 0), ("persistent", tier, 0)]
     return out
 
 
@@ -377,6 +476,8 @@ def run_shard(shard: Any) -> Dict[str, Any]:
             run_label_case(dicts[di], where, ser, seqs[si], acc)
     elif shard[0] == "pairs":
         run_send_pairs(acc)
+    elif shard[0] == "persistent":
+        run_persistent_kicker(4 if shard[1] == "quick" else 6, acc)
     else:
         run_kicker_bfs(shard[2], 3 if shard[1] == "quick" else 4, acc)
     return acc.as_dict()
@@ -387,6 +488,8 @@ def replay(obj: Dict[str, Any]) -> int:
     if "label_case" in obj:
         ls, where, ser, seq = obj["label_case"]
         run_label_case({k: _dec(v) for k, v in ls}, where, ser, tuple(seq), acc)
+    elif "persistent_kicker" in obj:
+        run_persistent_kicker(len(obj["persistent_kicker"]), acc, only=obj["persistent_kicker"])
     else:
         shared, seq = obj["kicker_sequence"]
         run_kicker_bfs(shared, max(2, len(seq)), acc)
